@@ -102,6 +102,23 @@ Register(d, alias, impl) ==
     /\ UNCHANGED <<nodes, phase, cur, want>>
     /\ act' = [a |-> "Register", d |-> d, alias |-> alias, impl |-> impl]
 
+\* dataset.set_dispatch(m): at any time the dispatch expression of a dataset is replaced; everything registered so
+\* far stays registered (and is now looked up under the new dispatch value), the default implementation and the
+\* callback stay.  (Derivatives made earlier with with_options keep the table they were derived with: the action
+\* is stated for datasets without derivatives.)
+SetDispatch(d, p) ==      \* the new dispatch is Option(p) (with the default / domain of the option it replaces)
+    /\ d \in 1 .. Len(nodes) /\ nodes[d].k = "ds" /\ nodes[d].disp # 0
+    /\ LET m == nodes[d].disp IN
+       /\ nodes[m].k = "opt" /\ nodes[m].p # p
+       /\ \A j \in 1 .. Len(nodes) : j # d => m \notin ChildrenOf(nodes[j])      \* the replaced option is used nowhere else,
+       /\ \A t \in DOMAIN tabs : \A e \in 1 .. Len(tabs[t]) : tabs[t][e].n # m        \* not as a registered implementation either
+       /\ \A j \in 1 .. Len(nodes) : nodes[j].k = "dsof" => BaseOf(j) # d
+       /\ nodes' = [nodes EXCEPT ![m].p = p]
+       /\ hist' = Append(hist, [a |-> "SetDispatch", d |-> d, p |-> p, prev |-> nodes[m].p])
+    /\ cur = NoDict /\ want = "none" /\ phase = "calls" /\ LateRegister
+    /\ UNCHANGED <<tabs, phase, cur, want>>
+    /\ act' = [a |-> "SetDispatch", d |-> d, p |-> p]
+
 \* choosing the dictionary of the next call (a separate cheap step, so that random simulation
 \* does not have to evaluate the semantics under every dictionary to pick one)
 Pick(o) ==
